@@ -185,6 +185,20 @@ CHECKS["C14"] = dict(
     note="partial: sequential consistency assumed (the code uses seq_cst atomics); TLS destructor order across translation units and weak-memory "
          "effects are runtime behaviour the model cannot exhibit; mode 1 is covered by oracles only.",
     technique="Lean 4 proof (invariant over all schedules of a transition system) + controlled-scheduler correspondence on real threads")
+CHECKS["C10"] = dict(
+    text="Lean theorems: (1) for every container of the node-size table (regenerated from cmake/get_node_size.cpp with this compiler on every "
+         "library build, by the cmake module's own method), every element size s >= 1 and every table alignment a | s, X_node_size<T> = "
+         "round_up(base(a)+s, 8) is at least the node request under the libstdc++ layout model (a decide over the complete generated table "
+         "+ an arithmetic lemma, no bound on s); (2) with the library's propagation trait values and address equality of typed handles, "
+         "every operation sequence of the allocator-aware container protocol (insert, erase, copy/move construction and assignment, swap, "
+         "node transfer between equal handles) over any number of containers keeps every node in a container whose handle references the "
+         "allocator it came from (induction over sequences); handles compare equal iff they reference the same allocator (_partial: typed "
+         "handles; the type-erased handle's constant-true equality is refuted by a machine-checked counterexample = finding D23). Tied by "
+         "real libstdc++ containers over two ledger allocators: per-operation binding vs model, release-to-origin ledger, contents vs twins, "
+         "node requests vs constants and layout model.",
+    note="partial: libstdc++ itself is modelled (protocol + layout formula), validated by sampling; D23 recorded as known finding (repair needs "
+         "a new virtual function in the type-erased base and cases for stateless/shared allocators).",
+    technique="Lean 4 proof (table decide + arithmetic; protocol invariant by induction) + real-container correspondence")
 NOT_YET = {}
 
 def main():
